@@ -146,9 +146,15 @@ example : (final (step ⟨.storeFirst, .once⟩ locRemFirst) (State.init true fa
 -- sized values on a small LRU: an update that grows the row past the capacity evicts it (never keeps the old row);
 -- an upsert on a cache miss returns the partial row and caches nothing
 set_option maxRecDepth 8192 in
-example : (final (step ⟨.storeFirst, .once⟩ locRemFirst) (State.init true true 2 1)
+example : (final (step ⟨.storeFirst, .once⟩ locRemFirst) (State.init true true 1 1)
     [(.add 1 4, []), (.upd 1 1, []), (.utr 2 3, []), (.utr 2 1, [])]) =
-    ⟨[(2, 4), (1, 5)], [⟨true, true, 2, []⟩]⟩ := by decide
+    ⟨[(2, 4), (1, 5)], [⟨true, true, 1, []⟩]⟩ := by decide
+
+-- zero-sized rows (value % 3 = 0) fit an LRU of any capacity, even 0, and a delete removes them
+set_option maxRecDepth 8192 in
+example : (final (step ⟨.storeFirst, .once⟩ locRemFirst) (State.init true true 0 1)
+    [(.add 1 3, []), (.add 2 6, []), (.del 1, [])]) =
+    ⟨[(2, 6)], [⟨true, true, 0, [(2, 6)]⟩]⟩ := by decide
 
 /-! ### the two handler-specific clauses -/
 
